@@ -87,6 +87,9 @@ static SNDFILE *open_state (const Fmt *f, int ch, int mode, int preset)
 	else { md_set (&dev, seed_bytes [preset], seed_len [preset]) ; rt_info_read (&info, f, ch, 44100) ; }
 	sf = md_open (&dev, mode, &info) ;
 	if (sf && mode == SFM_WRITE && preset) presets (sf, ch) ;
+	/* the preset state also has handle settings away from their defaults, each pair of related flags set differently
+	** (float normalisation off, double normalisation on; clipping on) so that a command that saves one and restores the other shows */
+	if (sf && preset) { vl_inlib ++ ; sf_command (sf, SFC_SET_NORM_FLOAT, NULL, SF_FALSE) ; sf_command (sf, SFC_SET_CLIPPING, NULL, SF_TRUE) ; vl_inlib -- ; }
 	return sf ;
 }
 
